@@ -150,6 +150,8 @@ structure SendCfg where
   deriving Repr
 
 def SendCfg.gen : SendCfg := { t := Printer.Thresholds.gen }
+/-- the configuration of the concrete examples (see `Printer.Thresholds.frozen`) -/
+def SendCfg.frozen : SendCfg := { t := Printer.Thresholds.frozen }
 
 /-- one call of `write_response` / `write_request` -/
 structure SendInput where
@@ -474,6 +476,10 @@ structure RecvCfg where
 def RecvCfg.gen (callerBuf lineMax : Nat) : RecvCfg :=
   { maxHead := Gen.defaultMaxHead, defaultReqBuf := Gen.defaultReqBuf, bodyBufSize := Gen.bodyBufSize,
     callerBuf := callerBuf, lineMax := lineMax }
+
+/-- the configuration of the concrete examples: the defaults at the time they were written -/
+def RecvCfg.frozen (callerBuf lineMax : Nat) : RecvCfg :=
+  { maxHead := 4096, defaultReqBuf := 4096, bodyBufSize := 4096, callerBuf := callerBuf, lineMax := lineMax }
 
 structure RChoice extends Choice where
   /-- the request that arrives next (used at `idle`) -/
